@@ -296,7 +296,7 @@ func main() {
 				"SIM_MODE=run", "SIM_PROP="+id,
 				fmt.Sprintf("VERIF_SEED=%d", seed),
 				fmt.Sprintf("SIM_FROM=%d", w), fmt.Sprintf("SIM_STRIDE=%d", nw), fmt.Sprintf("SIM_TO=%d", tc.Runs),
-				fmt.Sprintf("SIM_WALL_S=%d", tc.WallS), "SIM_OUT="+out, "SIM_KNOWN="+knownPath,
+				fmt.Sprintf("SIM_WALL_S=%d", tc.WallS), "SIM_OUT="+out, "SIM_KNOWN="+knownPath, "SIM_TIER="+*tier,
 			)
 
 			if *engine != "" {
